@@ -28,6 +28,41 @@ SUB_WRAPPERS = [
 ]
 
 
+FLOATS = [0.0, -0.0, 1.0, -1.0, 1.5, 2.5, -2.5, 0.5, -0.5, 0.49999997, 3.75, 100.25, 123456.789, -98765.4321, 1e10, 2147483647.5, 2147483648.0, -2147483648.5,
+          4294967295.5, 4294967296.0, 9.2e18, -9.2e18, 1.8e19, 16777217.0, 0.1, 1e-5, 3.4e38, 1e300]
+
+
+def float_states(rng, ops):
+    """register values that are bit patterns of interesting floats / doubles"""
+    import struct
+
+    from .. import coracle as CO
+
+    out = []
+    for _ in range(40):
+        st = CO.gen_state(rng, ops)
+        for k, o in enumerate(ops):
+            if o["kind"] != "reg" or o["slot"] in "de":
+                continue
+            f = rng.choice(FLOATS) * rng.choice([1, 1, 1, -1, 0.5, 3])
+            if o["w"] == 64:
+                v = struct.unpack("<Q", struct.pack("<d", f))[0]
+            elif o["w"] == 32:
+                try:
+                    v = struct.unpack("<I", struct.pack("<f", f))[0]
+                except OverflowError:
+                    continue
+            else:
+                continue
+            if rng.random() < 0.3:
+                # small integers for the int -> float direction
+                v = rng.choice([0, 1, 2, 3, 0x7FFFFFFF, 0x80000000, 0xFFFFFFFF, 16777217, 123456789]) if o["w"] == 32 else rng.choice([0, 1, (1 << 53) + 1, (1 << 63), (1 << 64) - 1, 1234567890123456789])
+            st["old"][o["key"]] = v
+            st["vals"][k] = v
+        out.append(st)
+    return out
+
+
 def main(tier):
     run = common.Run("C01", "exploration", tier)
     S = pipeline.Session()
@@ -67,7 +102,10 @@ def main(tier):
             if z.strip() == "return NOP();" and r["meta"][i] == ["HEX_IL_INSN_ATTR_NONE"] and nm in S.comps["rs"].noped_insns:
                 noped += 1
                 continue
-            progs.append(D.Prog(f"{nm}#{i}", b, z, extra={"item": {"name": f"{nm}#{i}", "text": b, "vkey": nm, "insn": nm, "part": i}}))
+            extra = {"item": {"name": f"{nm}#{i}", "text": b, "vkey": nm, "insn": nm, "part": i}}
+            if "FLOAT(" in b or "DOUBLE(" in b:
+                extra["states_fn"] = float_states
+            progs.append(D.Prog(f"{nm}#{i}", b, z, extra=extra))
     fam.rejected = rejected
     # sub-routine call wrappers go through compile_c_stmt
     wprogs, _ = fam.compile([dict(name=n, text=t, vkey=n) for n, t in SUB_WRAPPERS])
